@@ -36,6 +36,9 @@ SCRIPTS = [
     [("put", 0), ("status", "Enabled"), ("status", "Suspended"), ("delete", 0), ("status", "Enabled"), ("put", 0), ("put", 0), ("list",), ("put", 1), ("delete", 1), ("list",)],
     # a null version under versions with ids, a delete marker on top, removed again by id
     [("put", 0), ("status", "Enabled"), ("put", 0), ("put", 0), ("delete", 0), ("list",), ("delete-current", 0), ("list",), ("status", "Suspended"), ("put", 0), ("list",)],
+    # the null version is newer than a version with an id (a suspension in the middle): removing the current version re-exposes it
+    [("status", "Enabled"), ("put", 0), ("status", "Suspended"), ("put", 0), ("status", "Enabled"), ("put", 0), ("list",), ("delete-current", 0), ("get", 0), ("list",),
+     ("delete-current", 0), ("get", 0), ("list",)],
 ]
 
 
@@ -292,6 +295,7 @@ def history(chk, cl, bk, rnd, n_ops, idmap, interrupt=None, script=None):
             elif st[0] == "delete-current": do_delete_version(KEYS[st[1]], current=True)
             elif st[0] == "status": set_status(st[1])
             elif st[0] == "list": do_list()
+            elif st[0] == "get": do_get(KEYS[st[1]])
             chk.traces += 1
         n_ops = 0
     pre = script is None and rnd.random() < 0.6
